@@ -187,7 +187,6 @@ def merge(overlay, src, drop_disturbed=False):
     # consistently (old name -> new name), the old name no longer occurs in the new code and the new name did not occur
     # in the old code, the ghost lines of this section follow the rename (a renamed local must not cost the proof)
     ren = _rename_map(ocode, scode, sm)
-    merge.last_renames = ren
     out, tags = [], []
     for j in range(m + 1):
         for oi in by_pos.get(j, []):
@@ -202,8 +201,8 @@ def merge(overlay, src, drop_disturbed=False):
             out.append(src[j])
             tags.append(('c', j))
     drift = sum(1 for t, i1, i2, j1, j2 in sm.get_opcodes() if t != 'equal' for _ in range(max(i2 - i1, j2 - j1)))
-    merge.last_structural = structural
-    return out, tags, disturbed, drift
+    # (no module-level state here: units are built in parallel threads)
+    return out, tags, disturbed, drift, structural
 
 
 _IDENT = re.compile(r'[A-Za-z_][A-Za-z0-9_]*|\d+|\S')
@@ -364,7 +363,7 @@ def _build_file(path, repo, cfgs, b, depth):
             b.origin.append(('contract', rel, i + 1))
             try:
                 src, origin, notes, rwnotes = extract_item(repo, relfile, ipath, opts, cfgs)
-                out, tags, disturbed, drift = merge(section, src, getattr(b, 'drop_disturbed', False))
+                out, tags, disturbed, drift, structural = merge(section, src, getattr(b, 'drop_disturbed', False))
                 # round trip: the non-ghost lines of the merged text are exactly the source lines
                 if [l for l, t in zip(out, tags) if t[0] == 'c'] != src:
                     raise BuildError("round-trip check failed for %s" % arg)
@@ -385,7 +384,7 @@ def _build_file(path, repo, cfgs, b, depth):
                 callee_names = lambda ls: set(re.findall(r'(?<![\w!])([A-Za-z_]\w*)\s*(?:::<[^>()]*>)?\(', '\n'.join(re.sub(r'//.*$', '', l) for l in ls if not is_ghost(l))))
                 info['new_callees'] = sorted(callee_names(src) - callee_names(section) - set(['if', 'while', 'match', 'for', 'return', 'Some', 'Ok', 'Err', 'None', 'loop', 'in', 'as', 'fn']))
                 b.new_fns = sorted(set(b.new_fns) | set(info['new_callees']))
-                info['structural'] = getattr(merge, 'last_structural', 0)
+                info['structural'] = structural
                 info['drift'] = drift
                 b.dropped += notes
                 b.rewrites += rwnotes
@@ -424,7 +423,7 @@ def sync(path, repo, cfgs=()):
             section = lines[i + 1:j]
             relfile, ipath, opts = parse_item_args(d[1])
             src, origin, notes, rwnotes = extract_item(repo, relfile, ipath, opts, cfgs)
-            merged, tags, disturbed, drift = merge(section, src)
+            merged, tags, disturbed, drift, _structural = merge(section, src)
             if merged != section:
                 changed += 1
             out.append(lines[i])
